@@ -39,3 +39,22 @@ Theorem c02_mux_config_facts :
   Gen.Shapes2.server_mux_overrides = "MaxFrameSize"%string /\ Gen.Shapes2.client_mux_overrides = "MaxFrameSize"%string.
 Proof. split; reflexivity. Qed.
 Print Assumptions c02_mux_config_facts.
+
+(* What the per-connection (resp. per-peer) code paths share: nothing but the multiplexer session. The translator lists every lock,
+   wait-group, channel send / receive and select in these functions (Gen/SyncOps.v); a lock or a counting channel added to one of them
+   is what makes one connection wait for another, and breaks this obligation even when no scenario produces the contention. The only
+   lock is the client's upstream lock around establishing the shared physical session (bounded by the handshake deadline: C16). *)
+From SA Require Gen.SyncOps.
+Theorem c02_no_shared_synchronisation :
+  Gen.SyncOps.sync_server_handle_connection = ""%string /\
+  Gen.SyncOps.sync_server_accept_stream = ""%string /\
+  Gen.SyncOps.sync_server_multiplex_to_upstream = ""%string /\
+  Gen.SyncOps.sync_server_mux_handler = ""%string /\
+  Gen.SyncOps.sync_pipe_data = "recv:downPipe;recv:upPipe;select"%string /\
+  Gen.SyncOps.sync_pipe_data_loop = "send:errs;send:errs"%string /\
+  Gen.SyncOps.sync_listener_handle_connection = ""%string /\
+  Gen.SyncOps.sync_listener_connect_directly = ""%string /\
+  Gen.SyncOps.sync_upstreams_open_stream = ""%string /\
+  Gen.SyncOps.sync_upstreams_connect = "ul.mutex.Lock;ul.mutex.Lock;ul.mutex.Unlock;ul.mutex.Unlock"%string.
+Proof. repeat split; reflexivity. Qed.
+Print Assumptions c02_no_shared_synchronisation.
